@@ -101,6 +101,9 @@ class Builtins:
         self.gcd_terms = []       # [(g, x, y, x1, y1)]
         self.coprime = z3.Function("coprime", z3.IntSort(), z3.IntSort(), z3.BoolSort())
         self.used = set()
+        # fresh-variable models are functional: the same operands get the same fresh variables
+        # (needed when two executions are compared, e.g. original vs packaged bytecode)
+        self.memo = {}
 
     # -- small algebra over python ints / z3 Int / z3 BV64 ---------------------------------
     def _fresh(self, prefix, sort="int"):
@@ -259,8 +262,13 @@ class Builtins:
                     if a.eq(y):
                         return [Alt(cond=b == 0, error=("InvalidArgument", msg)),
                                 Alt(cond=b != 0, value=VInt(y1))]
-        q = self._fresh("q")
-        r = self._fresh("r")
+        key = ("divmod", a.sexpr(), b.sexpr())
+        if key in self.memo:
+            q, r = self.memo[key]
+        else:
+            q = self._fresh("q")
+            r = self._fresh("r")
+            self.memo[key] = (q, r)
         absb = z3.If(b < 0, -b, b)
         facts = [a == b * q + r,
                  z3.If(r < 0, -r, r) < absb,
@@ -300,9 +308,14 @@ class Builtins:
             return [Alt(value=VInt(math.gcd(a, b)))]
         if mode == "bv":
             raise Unsupported("gcd in BV mode")
-        g = self._fresh("g")
-        x1 = self._fresh("gx")
-        y1 = self._fresh("gy")
+        key = ("gcd", a.sexpr(), b.sexpr())
+        if key in self.memo:
+            g, x1, y1 = self.memo[key]
+        else:
+            g = self._fresh("g")
+            x1 = self._fresh("gx")
+            y1 = self._fresh("gy")
+            self.memo[key] = (g, x1, y1)
         facts = [g >= 0, a == g * x1, b == g * y1,
                  (g == 0) == z3.And(a == 0, b == 0),
                  z3.Implies(g != 0, self.cop(x1, y1)),
@@ -323,7 +336,12 @@ class Builtins:
             return [Alt(value=VInt(math.isqrt(a)))]
         if is_bv(a):
             raise Unsupported("sqrt in BV mode")
-        s = self._fresh("s")
+        key = ("sqrt", a.sexpr())
+        if key in self.memo:
+            s = self.memo[key]
+        else:
+            s = self._fresh("s")
+            self.memo[key] = s
         facts = [s >= 0, s * s <= a, a < (s + 1) * (s + 1)]
         return [Alt(cond=a < 0, error=("InvalidArgument", "Cannot take square root of negative number")),
                 Alt(cond=a >= 0, facts=facts, value=VInt(s))]
